@@ -444,6 +444,7 @@ static void run_prog(int idx) {
       }
       ev("drain want=%ld have=%ld", want, have);
     }
+    else if (n == "qclear") { async_queue_clear(q); ev("qclear"); }
     else if (n == "qstats") { async_queue_stats_t st; memset(&st, 0, sizeof st); async_queue_get_stats(q, &st); ev("qstats size=%zu enq=%llu deq=%llu drop=%llu", st.current_size, (unsigned long long)st.enqueue_count, (unsigned long long)st.dequeue_count, (unsigned long long)st.dropped_count); }
     else if (n == "wcreate") { worker = async_worker_create(worker_proc, NULL, 0); ev("wcreate %d", worker != NULL); }
     else if (n == "wstop") { async_worker_signal_stop(worker); ev("wstop"); }
